@@ -356,6 +356,7 @@ static void build_sections(bool T) {
     auto pats = std::make_shared<std::vector<PSpec>>(std::vector<PSpec>{
         pstr("https://example.com/:id"), pstr("https://*.example.com/books/:id(\\d+)?"), pstr("/books/:id", "https://example.com/x"),
         pstr("http{s}?://h/*"), pstr("https://u:p@h:8080/p?q#f"), pstr("data:text/*"), pstr("https://[::1]/"), pstr("bad pattern (("),
+        pstr("https://example.com/a\\\xff" "b"), pstr("(\\\xff)"), pstr("{\\\xc3}x"), pstr("https://\xff/:a"), pstr(":\xed\xa0\x80"),   // malformed UTF-8 after an escape / in a name: error paths of the tokenizer
         pstr("https://" EACUTE ".com/:" EACUTE "/" EACUTE),
         pdict({{PATHN, "/a/*"}}), pdict({{HOSTN, "*.example.com"}, {PROTO, "https"}}), pdict({{HOSTN, "EXAMPLE.com"}}),
         pdict({{HOSTN, EACUTE ".com"}, {PATHN, "/" EACUTE "/:x"}}), pdict({{SEARCH, "?q=:v"}}), pdict({{HASH, "#x"}}),
